@@ -251,7 +251,7 @@ func (rs *recvStream) Recv() (*hashmailrpc.CipherBox, error) {
 		if len(rs.s.q) > 0 {
 			m := rs.s.q[0]
 			rs.s.q = rs.s.q[1:]
-			rs.r.emit("deliver", rs.s.id, len(m), "")
+			rs.r.emitMsg("deliver", rs.s.id, len(m), "", m)
 			rs.r.mu.Unlock()
 			return &hashmailrpc.CipherBox{
 				Desc: &hashmailrpc.CipherBoxDesc{StreamId: nil}, Msg: m}, nil
@@ -375,6 +375,7 @@ func (ws *sendStream) Send(box *hashmailrpc.CipherBox) error {
 		r.mu.Lock()
 	}
 	s.q = append(s.q, msg)
+	r.emitMsg("enq", sid, len(msg), "", msg)
 	r.mu.Unlock()
 	select {
 	case s.notify <- struct{}{}:
